@@ -32,7 +32,7 @@ CLAIMED = {
    technique='static analysis: effect/Freeze analysis + interval abstract interpretation of panic obligations over rustc MIR',
    ref='DESIGN.md section 2, C08'),
  'C13': dict(level='other',
-   text='Necessary-condition rules decided on the MIR: (EF-4) the GFF serialiser traverses the attribute multimap only with all-values APIs (found and repaired a loss of multi-valued attributes); (VD-1) the Option returned by Phase::validate is examined so out-of-range phases become errors (found and repaired a silent coercion); (RI-4) the BED/GFF writers keep no scratch state across write() calls unless its first mention is a reset on every path; (TB-4) reader and writer take separators from the same GffType::separator table, csv delimiter TAB and comment # agree, readers are not flexible about the column count, regex named groups match the indexes used. Field-for-field equality through the external csv/serde layers is NOT decided.',
+   text='Necessary-condition rules decided on the MIR: (EF-4) the GFF serialiser traverses the attribute multimap only with all-values APIs (found and repaired a loss of multi-valued attributes); (VD-1) the Option returned by Phase::validate is examined so out-of-range phases become errors (found and repaired a silent coercion); (RI-4) the BED/GFF writers keep no scratch state across write() calls unless its first mention is a reset on every path; (TB-4) reader and writer take separators from the same GffType::separator table, csv delimiter TAB and comment # agree, readers are not flexible about the column count, writer and reader agree on csv quoting, regex named groups match the indexes used. Field-for-field equality through the external csv/serde layers is NOT decided.',
    note='Trusted: rustc MIR, extractor; multimap API contract (iter = first value per key; iter_all/flat_iter/get_vec = all values); csv builder semantics.',
    technique='static analysis: forbidden-callee / validator-discipline / table-agreement rules over resolved callees in rustc MIR',
    ref='DESIGN.md section 2, C13'),
@@ -51,7 +51,7 @@ CLAIMED = {
         'over / compared with / subtracted from the field usable_bits_per_block only, never a literal word size - found the '
         '(bit..32) defect for widths 3,5,6,7, fixed in /repo; (SB-5) new and with_capacity initialise all fields identically and '
         'assert the same limit, SmallInts push/set/real_value use the same strict threshold against S::max_value(); (GD-7) '
-        'BitEnc::get addresses storage only behind i < len and returns None otherwise, clear resets storage and len; (MK-1) every caller-supplied value widened into a storage word is masked with self.mask first in push, set and push_values - found push_values storing unmasked values, fixed in /repo. '
+        'BitEnc::get addresses storage only behind i < len and returns None otherwise, clear resets storage and len; (FW-1) FenwickTree::set/get combine stored values only through PrefixOp::operation (a value comparison is valid for max only, not for sums); (MK-1) every caller-supplied value widened into a storage word is masked with self.mask first in push, set and push_values - found push_values storing unmasked values, fixed in /repo. '
         'Observational equivalence with Vec over all histories and Fenwick trees are NOT decided.',
    note='Trusted: rustc MIR, extractor. Rules are necessary conditions; the packing arithmetic itself is not verified.',
    technique='static analysis: unit/belief-consistency and sibling-agreement rules over rustc MIR data flow',
@@ -61,7 +61,7 @@ CLAIMED = {
         'RankTransform::qgrams - found |A|.pow(q) sizing that panics for alphabets whose size is not a power of two, fixed in '
         '/repo; (SB-6) qgrams, rev_qgrams and get_width compute bits per symbol with the same expression and assert the same '
         'word-size bound; (TS-8) the vectors returned by find_kmer_matches_seq1_hashed and expand_kmer_matches, and the event '
-        'vectors of lcskpp/sdpkpp, pass through sort after their last push before being returned/read; (PO-6) every panic obligation of qgram_matches/matches/exact_matches is discharged or audited - found the usize diagonal p - i that panics in debug builds, fixed in /repo. Exactness of matches and '
+        'vectors of lcskpp/sdpkpp, pass through sort after their last push before being returned/read; (DK-1) the key under which matches/exact_matches merge hits is the signed difference text position - pattern position; (EV-1) lcskpp/sdpkpp tag start events idx + len and end events idx and decode tag >= len as start; (QM-1) the q-gram mask is all ones when q * bits fills the word; (PO-6) every panic obligation of qgram_matches/matches/exact_matches is discharged or audited - found the usize diagonal p - i that panics in debug builds, fixed in /repo. Exactness of matches and '
         'optimality of chains are NOT decided.',
    note='Trusted: rustc MIR, extractor. find_kmer_matches_seq2_hashed is deliberately exempt from TS-8 (its pushes are already in order).',
    technique='static analysis: data-flow provenance of allocation sizes, sibling agreement, must-pass-through (typestate) on the CFG',
@@ -113,7 +113,7 @@ CLAIMED = {
         '(identity pre-fill, the two pair literals, store shapes t[a]=b and t[a+32]=b+32 recognised in the MIR, anything else fails '
         'closed) and checked to be involutions that preserve case, fix non-letters and pair A-T/U, C-G; complement() is a plain '
         'lookup and revcomp = rev . map(complement), hence revcomp(revcomp(x)) = x. (TB-8) gc content counts exactly {C,G,c,g} and '
-        'gc_content/gc3_content use steps 1/3. (TS-10) in the ORF finder every path from a stop codon to the next symbol empties the pending start positions of that frame. ORF soundness/completeness and alphabet rank bijection are NOT decided.',
+        'gc_content/gc3_content use steps 1/3. (TS-10) in the ORF finder every path from a stop codon to the next symbol empties the pending start positions of that frame; (GD-11) every reported Orf is built behind a min_len test on its own start position. ORF soundness/completeness and alphabet rank bijection are NOT decided.',
    note='Trusted: rustc MIR constants, extractor, and that the recognised store shapes are the only writes to the table (checked: any other store fails closed).',
    technique='static analysis: table reconstruction from MIR literals + exhaustive finite check',
    ref='DESIGN.md section 2, C20'),
@@ -135,7 +135,7 @@ CLAIMED = {
    ref='DESIGN.md section 2, C10'),
 
  'C11': dict(level='other',
-   text='Robustness clauses decided on the MIR of the FASTA/FASTQ readers, record iterators and sniffers: (PO-2) every panic obligation reachable from them is discharged (line[1..] by the dominating starts_with(<ASCII>)) or audited; (ED-1) every Result is propagated/inspected; (LP-1) every parser loop is counted or clears its buffer before read_line and exits on an empty buffer; (LT-1) everything appended to seq/qual and the header is str::trim_end of the line buffer, so LF/CRLF and re-wrapped layouts parse alike; (GD-10) a FASTQ record is returned as Ok only with a non-empty quality string, otherwise Err(IncompleteRecord); (TB-3) writer markers/separator, reader markers, sniffer mapping, Kind-to-parser pairing agree and every Ok of get_kind_detailed carries Cursor::new(sniffed byte).chain(reader). Losslessness over all records, buffer capacities and chunkings is NOT decided.',
+   text='Robustness clauses decided on the MIR of the FASTA/FASTQ readers, record iterators and sniffers: (PO-2) every panic obligation reachable from them is discharged (line[1..] by the dominating starts_with(<ASCII>)) or audited; (ED-1) every Result is propagated/inspected; (LP-1) every parser loop is counted or clears its buffer before read_line and exits on an empty buffer; (LT-1) everything appended to seq/qual and the header is str::trim_end of the line buffer, so LF/CRLF and re-wrapped layouts parse alike; (GD-10) a FASTQ record is returned as Ok only with a non-empty quality string, otherwise Err(IncompleteRecord); (LT-2) on every successful return of the FASTA/FASTQ writers the last write ends the line, so records cannot be glued together; (SK-1) get_kind_seek rewinds relative to the current position by exactly the byte it read; (TB-3) writer markers/separator, reader markers, sniffer mapping, Kind-to-parser pairing agree and every Ok of get_kind_detailed carries Cursor::new(sniffed byte).chain(reader). Losslessness over all records, buffer capacities and chunkings is NOT decided.',
    note='Trusted: rustc MIR, extractor, interval engine, 2 audited obligations; the user-supplied BufRead does not panic; std read_line reports invalid UTF-8 as an error.',
    technique='static analysis: panic-obligation enumeration with interval discharge, error-discipline and loop-shape rules, table agreement over rustc MIR',
    ref='DESIGN.md section 2, C11'),
